@@ -200,6 +200,14 @@ def families(quick):
             yield "wrap", "%s = (%s)\n" % (pad, seq)
             yield "wrap", '%s = "%s"\n' % (pad, " ".join(words[i % len(words)] for i in range(n)))
             yield "wrap", "GROUP = g\n  %s = {%s}\nEND_GROUP\n" % (pad, ", ".join('"%s"' % words[i % len(words)] for i in range(n)))
+    # units expressions with blanks in every amount and place
+    for u in ("m/s", " m ", "m  s", "KM   /   S", "a    b     c", "m\n   s", "m \n\n s", "  km  **  2  ", "m\t/\ts", "m\r\n/s"):
+        yield "units", "k = 1.5 <%s>\nj = (1 <%s>, 2)\ni = (1, 2) <%s>\nGROUP = g\n h = x <%s>\nEND_GROUP\n" % (u, u, u, u)
+    # every small container tree as text (repeated names at every level, groups and objects)
+    from . import c19
+    for name, t in c19.texts_generated(True):
+        if name == "tree" or name.startswith("shape"):
+            yield name, t
     yield "wrap", "k = %s\n" % "-".join(["word"] * 30)
     yield "wrap", "k = (%s)\n" % ", ".join("2001-01-01T12:00:00.123456Z" for _ in range(8))
 
@@ -249,7 +257,7 @@ def run(ctx):
         "evaluations": acc.n, "distinct_nontrivial": acc.nontrivial,
         "rule": "%d texts (C03 spelling x context texts for the default dialect, C08 missing-value documents, leap "
                 "seconds / units on sequences / mixed-case keywords / based integers, temporal values in 13 fraction x 5 zone "
-                "spellings, numbers beyond the float range, wrap grids of hyphenated words, every string of the "
+                "spellings, numbers beyond the float range, wrap grids of hyphenated words, units with blanks, every container tree <= 3 nodes as text, every string of the "
                 "encoder-side alphabet as a quoted value, corpus files and their "
                 "single-character-deletion variants) x 4 encoders: loads, dumps, loads, dumps; non-trivial = the "
                 "first load and dump succeeded, the second load was R4-equal and the second dump compared"
